@@ -17,6 +17,7 @@ use std::time::{Duration, Instant};
 pub mod envx;
 pub mod wire;
 pub mod rgen;
+pub mod zfix;
 
 pub const VERIF_DIR: &str = "/verif";
 
